@@ -94,6 +94,7 @@ fixed("FX-untake-into-numpy-scalar", ["C11"], "24c5162", "a 0-d array that recei
 fixed("FX-list-functions-real-piece-complex-gradient", ["C05"], "63be247", "concatenate / vstack / hstack / column_stack / append / array with a real differentiated piece next to complex pieces returned a complex gradient for the real piece", case("concatenate", [[A(3), C(3)]], argnum=0, form="listfun", tags=["kindmix"]))
 fixed("FX-deepcopy-of-tracer", ["C15"], "ce746a7", "copy.deepcopy of a traced value (or of a container holding traced values) duplicated the recorded graph: everything computed from the copy silently lost its derivative (reverse mode)", {"kind": "protocol", "prog": "deepcopy_and_original", "mode": "rev"})
 fixed("FX-jvp-writes-tangent-into-out-buffer", ["C02", "C06"], "e5d0bff", "forward mode with out=<buffer> on a function whose JVP is \"same\" / def_linear (multiply, negative, sum, cumsum, dot, outer, ...): the tangent was written into the buffer holding the primal result; value and derivative silently wrong", dict(case("multiply", [A(3), A(3) * 0.7 + 0.2], argnum=0, tags=["out_buffer"]), fresh_out=[[3], "float64"]), witness_mode="fwd")
+fixed("FX-power-exponent-zero-second-order", ["C07"], "04afaff", "x**y differentiated jointly in (x, y) at y exactly 0: the VJP/JVP w.r.t. x replaced the exponent by a constant there, so mixed second derivatives were wrong and reverse-over-reverse, forward-over-reverse and the FD of the gradient disagreed", dict(case("power", [onp.array([0.7, 1.3, 2.1]), 0.0], argnum=0, tags=["special_scalar"]), joint=[0, 1]))
 fixed("FX-where-jvp-broadcast", ["C05", "C02"], "423a953", "forward-mode np.where returned a tangent with the branch's shape/kind instead of the output's", case("where", [cc, A(3), A(2, 2, 3)], argnum=1), witness_mode="fwd")
 
 out = {"_comment": "Known findings: genuine defects of HIPS/autograd that are recorded rather than repaired (status open) and defects repaired by a 'fix:' commit (status fixed; fixed entries suppress nothing - their witnesses are re-run on every check and a failing one is an ordinary VIOLATION). `match` is a conjunction over fields of the case signature (lists = any of; {__re__}: regex; {__has__}: list membership); never a seed, hash or random value. Read-only at run time.", "findings": F}
